@@ -302,7 +302,7 @@ fn case_stall(r: &mut Report, cx: &Ctx, case: u64) {
     let peer: SocketAddr = "10.20.30.40:5555".parse().unwrap();
     let reqm = gen_request(&mut rng, &GenOpts { max_fields: 4, max_body: 20, allow_xff: false });
     let mut req = parse_req(&reqm, peer).unwrap();
-    let kind = case % 6;
+    let kind = case % 7;
     if kind == 5 {
         // a request larger than the socket buffers, for the upstream that accepts and never reads (the stall is on the write)
         req.method = humphrey::http::method::Method::Post;
@@ -331,6 +331,11 @@ fn case_stall(r: &mut Report, cx: &Ctx, case: u64) {
             cx.srv.push(Play::Respond { bytes: valid[..valid.len() - 40].to_vec(), seg: vec![], gap_us: 0, linger_ms: 4500 });
             ("head-then-silence", cx.srv.addr)
         }
+        6 => {
+            // a close-delimited body (no length, not chunked) that stops part-way without the close that would end it
+            cx.srv.push(Play::Respond { bytes: b"HTTP/1.1 200 OK\r\nX-A: b\r\n\r\nthe first part of a body that nev".to_vec(), seg: vec![], gap_us: 0, linger_ms: 4500 });
+            ("close-delimited-body-then-silence", cx.srv.addr)
+        }
         _ => {
             cx.srv.push(Play::AcceptNoRead { hold_ms: 4500 });
             ("accept-never-read-12MiB-request", cx.srv.addr)
@@ -345,7 +350,7 @@ fn case_stall(r: &mut Report, cx: &Ctx, case: u64) {
     match call_proxy(req, target) {
         Outcome::Hung => {
             let sig = match kind {
-                1 | 4 => "C09/no-read-timeout",
+                1 | 4 | 6 => "C09/no-read-timeout",
                 5 => "C09/no-write-timeout",
                 3 => "C09/trickle-exceeds-timeout",
                 _ => "C09/no-return-within-timeout",
@@ -436,9 +441,22 @@ fn concurrent_rotation(r: &mut Report, seed: u64, case: u64) {
     let lb = Arc::new(EqMutex::new(LoadBalancer { targets: ups.iter().map(|u| u.addr.to_string()).collect(), mode: LoadBalancerMode::RoundRobin, index: 0, lcg: Lcg::new() }));
     for u in &ups {
         for _ in 0..threads {
-            u.push(Play::DelayedRespond { delay_ms: 120, bytes: b"HTTP/1.1 200 OK\r\nContent-Length: 2\r\n\r\nok".to_vec() });
+            u.push(Play::DelayedRespond { delay_ms: 250, bytes: b"HTTP/1.1 200 OK\r\nContent-Length: 2\r\n\r\nok".to_vec() });
         }
     }
+    // monitor: how many upstream exchanges are in progress at once, over all targets (sampled at the upstreams)
+    let done = Arc::new(std::sync::atomic::AtomicBool::new(false));
+    let actives: Vec<Arc<std::sync::Mutex<usize>>> = ups.iter().map(|u| u.active.clone()).collect();
+    let d2 = done.clone();
+    let watcher = std::thread::spawn(move || {
+        let mut max = 0usize;
+        while !d2.load(std::sync::atomic::Ordering::SeqCst) {
+            let now: usize = actives.iter().map(|a| *a.lock().unwrap()).sum();
+            max = max.max(now);
+            std::thread::sleep(Duration::from_millis(2));
+        }
+        max
+    });
     let barrier = Arc::new(std::sync::Barrier::new(threads));
     let hs: Vec<_> = (0..threads)
         .map(|i| {
@@ -451,9 +469,14 @@ fn concurrent_rotation(r: &mut Report, seed: u64, case: u64) {
             })
         })
         .collect();
+    let t0 = Instant::now();
     let statuses: Vec<u16> = hs.into_iter().map(|h| h.join().unwrap_or(0)).collect();
+    let all_ms = t0.elapsed().as_millis() as u64;
+    done.store(true, std::sync::atomic::Ordering::SeqCst);
+    let max_overlap = watcher.join().unwrap_or(0);
     r.eval();
     r.count("concurrent_rotation_rounds", 1);
+    r.max("max_upstream_exchanges_in_progress_at_once", max_overlap as u64);
     r.nontrivial(fnv(format!("rot{}-{}-{}", case, nt, threads).as_bytes()));
     let replay = vec!["c09".to_string(), "--seed".into(), seed.to_string(), "--rotation".into(), case.to_string()];
     let counts: Vec<usize> = ups.iter().map(|u| u.take_log().len()).collect();
@@ -464,6 +487,19 @@ fn concurrent_rotation(r: &mut Report, seed: u64, case: u64) {
         r.violation("C09/round-robin-not-in-rotation:concurrent-requests", format!("{} overlapping requests over {} round-robin targets reached them {:?} times; strict rotation gives {} each", threads, nt, counts, rounds), ex, replay);
     } else {
         r.count("concurrent_rotations_exact", 1);
+    }
+    // each caller is answered within ITS OWN exchange time: overlapping calls are not queued behind one another.
+    // Decided on what the upstreams saw (never two exchanges in progress at once although the calls began together
+    // and each upstream holds its exchange for 250 ms), not on the wall clock; a machine that schedules threads late discards it.
+    if max_overlap < 2 && all_ms >= 250 * threads as u64 {
+        if scheduling_overshoot_ms() > 60 {
+            r.count("concurrent_rotations_overlap_discarded_machine_overloaded", 1);
+        } else {
+            let ex = J::obj(vec![("overlapping_calls", J::u(threads as u64)), ("upstream_hold_ms", J::u(250)), ("max_exchanges_in_progress_at_once", J::u(max_overlap as u64)), ("all_calls_returned_after_ms", J::u(all_ms))]);
+            r.violation("C09/handler:calls-serialised", format!("{} proxy_handler calls that began together reached the upstreams one at a time (never 2 exchanges in progress at once; all returned after {} ms with a 250 ms upstream): a caller waits for the exchanges of the others, so a stalled upstream delays it by multiples of the timeout", threads, all_ms), ex, vec!["c09".to_string(), "--seed".into(), seed.to_string(), "--rotation".into(), case.to_string()]);
+        }
+    } else if max_overlap >= 2 {
+        r.count("concurrent_rotations_with_overlapping_exchanges", 1);
     }
 }
 
